@@ -318,6 +318,9 @@ func (t *Transaction) Commit() {
 	}
 
 	// Update our copy of the config with the most recent one from the state.
+	// Decode into a fresh map: unmarshalling on top of the old copy would keep
+	// the entries of snaps whose configuration was removed in the meantime.
+	t.pristine = nil
 	err := t.state.Get("config", &t.pristine)
 	if errors.Is(err, state.ErrNoState) {
 		t.pristine = make(map[string]map[string]*json.RawMessage)
